@@ -359,11 +359,11 @@ func rulesTagTable(c *Ctx, r *Report) {
 	r.analysed(fname(wf))
 	r.analysed(fname(rf))
 	type wEntry struct {
-		t      types.Type
-		letter string
-		enc    string
+		t       types.Type
+		letter  string
+		enc     string
 		encCall *ssa.Call
-		pos    token.Pos
+		pos     token.Pos
 	}
 	var W []wEntry
 	ws := newSymb(wf)
@@ -412,11 +412,11 @@ func rulesTagTable(c *Ctx, r *Report) {
 		W = append(W, e)
 	})
 	type rEntry struct {
-		letter string
-		t      types.Type
-		dec    string
+		letter  string
+		t       types.Type
+		dec     string
 		decCall *ssa.Call
-		pos    token.Pos
+		pos     token.Pos
 	}
 	var R []rEntry
 	// the type switch may live in a helper of parseTags that returns the typed value
